@@ -50,7 +50,10 @@ impl Check for C20 {
     }
     fn run(&self, tape: &mut Tape, ctx: &RunCtx) -> RunOut {
         let mut out = RunOut::default();
-        let kn = draw_knobs(tape);
+        let mut kn = draw_knobs(tape);
+        // short reads/writes are drawn independently in each of the four worlds
+        // and would change the number of read/write calls: not this check's concern
+        kn.short_io = 0;
         let front = tape.draw(4); // 0 plain, 1 sharded, 2 stack, 3 readonly
         let depth = if front >= 2 { 1 + tape.draw(3) as usize } else { 1 };
         let kinds: Vec<bool> = (0..depth).map(|i| if front == 0 { false } else if front == 1 { true } else { let _ = i; tape.draw(2) == 1 }).collect();
